@@ -355,6 +355,7 @@ def run_check(engine, prop, tier, level="exploration", runs_quick=400, budget_qu
 			"known_findings_hit": sorted(known_hit),
 			"known_finding_runs": known_runs[0],
 			"harness_errors": harness_errors,
+			"notes": list(getattr(engine, "notes", lambda: [])()),
 		},
 		"assumptions": list(assumptions),
 		"wall_s": round(wall, 2),
